@@ -117,12 +117,19 @@ func genC01(r *Rng, tier string, idx int) *Plan {
 			switch r.Intn(10) {
 			case 0, 1, 2, 3, 4:
 				kind := r.Pick([]string{"err-before", "err-after", "err-before", "err-after", "evict", "crash-before", "crash-after", "redis-down"})
+				if isRedisKind(p.Spec.Filters[0].Store) && r.Chance(0.3) {
+					kind = fmt.Sprintf("redis-torn:%d", r.Range(2, 8)) // Redis goes away between two commands of one store call
+				}
 				if p.Spec.Filters[0].Store == "redis" && r.Chance(0.2) {
 					kind = "corrupt:" + r.Pick([]string{"id_token", "access_token_expiry", "time_added", "refresh_token", "state"})
 				}
 				p.Faults = append(p.Faults, Fault{Site: "store." + r.Pick(storeMethods), Nth: r.Range(1, 6), Kind: kind})
 			case 5, 6, 7:
 				p.Faults = append(p.Faults, Fault{Site: "idp.token", Nth: r.Range(1, 5), Kind: r.Pick(tokenFaults)})
+				if r.Chance(0.3) {
+					// Envoy's ext_authz timeout fires while the check is running: its context is cancelled at a seam call
+					p.Faults[len(p.Faults)-1] = Fault{Site: r.Pick([]string{"idp.token", "store." + r.Pick(storeMethods)}), Nth: r.Range(1, 6), Kind: "ctx-cancel"}
+				}
 			case 8:
 				p.Faults = append(p.Faults, Fault{Site: "jwks.get", Nth: r.Range(1, 4), Kind: "err"})
 			case 9:
@@ -254,7 +261,14 @@ func runC01(p *Plan) *Result {
 		return false
 	}
 	for _, c := range calls {
-		for _, kind := range kindsFor(c.site) {
+		kinds := kindsFor(c.site)
+		if strings.HasPrefix(c.site, "store.") && isRedisKind(p.Spec.Filters[0].Store) {
+			// Redis going away before the k-th command of this call, for every k the call has
+			for k := 2; k <= 10; k++ {
+				kinds = append(kinds, fmt.Sprintf("redis-torn:%d", k))
+			}
+		}
+		for _, kind := range kinds {
 			fs := []Fault{{Site: c.site, Nth: c.nth, Kind: kind}}
 			w, infra := runSession(p, fs)
 			if infra != "" {
@@ -264,6 +278,9 @@ func runC01(p *Plan) *Result {
 			if merge(w) {
 				res.PlanFaults = fs
 				return res
+			}
+			if strings.HasPrefix(kind, "redis-torn:") && w.FaultsFired["redis-torn-store-call"] == 0 {
+				break // the call has fewer commands than k
 			}
 		}
 	}
